@@ -133,4 +133,23 @@ theorem padded_len_mod (cs : Nat) (hs : 0 < cs) (xs : List Int) : (padded cs xs)
       rw [Nat.mul_add, Nat.mul_one]; omega
     rw [this]; exact Nat.mul_mod_right _ _
 
+/-- the first `n` of chunks of uniform length `k`, concatenated = the first `n * k` samples -/
+theorem flatten_take_uniform (k : Nat) : ∀ (l : List (List Int)) (n : Nat),
+    (∀ c ∈ l, c.length = k) → (l.take n).flatten = l.flatten.take (n * k) := by
+  intro l
+  induction l with
+  | nil => intro n _; simp
+  | cons c l ih =>
+    intro n hl
+    cases n with
+    | zero => simp
+    | succ n =>
+      have hc : c.length = k := hl c List.mem_cons_self
+      have hl' : ∀ d ∈ l, d.length = k := fun d hd => hl d (List.mem_cons_of_mem _ hd)
+      simp only [List.take_succ_cons, List.flatten_cons, ih n hl', List.take_append, hc]
+      have e1 : (n + 1) * k - k = n * k := by rw [Nat.add_mul, Nat.one_mul, Nat.add_sub_cancel]
+      have e2 : c.take ((n + 1) * k) = c := by
+        apply List.take_of_length_le; rw [hc, Nat.add_mul, Nat.one_mul]; omega
+      rw [e1, e2]
+
 end ALV.C17
